@@ -476,7 +476,9 @@ class Scenario(object):
             pos = p.pos_handler.positions.get(op[3])
             # a position remembers the time of its last mark / fill: a transaction earlier than that is refused too
             behind = pos is not None and t < pos.current_dt
-            return {'ValueError'} if (t < p.current_dt or behind) else {'ok'}
+            # a fill without a positive price is refused by the position it would change
+            badprice = pos is not None and op[4] != 0 and not (op[5] > 0)
+            return {'ValueError'} if (t < p.current_dt or behind or badprice) else {'ok'}
         if k == 'pf_mark':
             asset, price, t = op[2], op[3], ts(op[4])
             if asset not in mp.pos or mp.pos[asset].net == 0:
@@ -694,6 +696,8 @@ class Scenario(object):
                 return k + '/negative'
             return k + ('/backwards-clock' if ts(op[4]) < self._clock_before[op[1]] else '/behind-position-clock')
         if k == 'pf_txn':
+            if not (op[5] > 0):
+                return k + '/non-positive-price'
             return k + ('/backwards-clock' if ts(op[2]) < self._clock_before[op[1]] else '/behind-position-clock')
         return k
 
@@ -787,6 +791,10 @@ class Scenario(object):
             mp.hist.append({'type': 'withdrawal', 'amount': F(op[3]), 'cash': mp.cash, 'dt': str(ts(op[2]))})
         elif k == 'pf_txn':
             self.last_batch = []
+            if len(delivered) == 1:
+                # the harness made this transaction itself: the ledger books what it put in (quantity, price, commission),
+                # not what the transaction object says afterwards
+                delivered[0] = dict(delivered[0], qty=op[4], price=op[5], commission=(op[6] if len(op) > 6 else 0.0))
             self.settle_batch(ts(op[2]), [], delivered, partial=True)
         # quote / getters: nothing
 
@@ -1667,6 +1675,8 @@ class Gen(object):
         self.names = ['p1', 'p2', 'p3', 'p4']
         if rng.random() < 0.5:
             rng.shuffle(self.names)          # portfolios are not created in the alphabetical order of their ids
+        if rng.random() < 0.12:
+            self.names = ['p%1', '100%s', 'a b', "p'4"]      # ids are free text: per cent signs, blanks, quotes
         if rng.random() < 0.08:
             self.names = ['master']          # an account with ONE portfolio whose id equals the reports' total key
 
@@ -1818,7 +1828,8 @@ class Gen(object):
             kinds += ['update_back', 'update_back', 'update_back', 'update_back_ok', 'update_back_pos', 'neg_mark', 'neg_mark', 'pf_sub_back', 'pf_sub_neg',
                       'pf_wd_back', 'pf_wd_neg', 'pf_wd_over', 'pf_txn_back', 'pf_mark_neg', 'pf_mark_back',
                       'pf_txn_behind_pos', 'pf_txn_behind_pos', 'pf_mark_behind_pos', 'pf_mark_repeat', 'pf_mark_ahead',
-                      'pf_mark_ahead', 'pf_sub_ahead', 'pf_sub_ahead']
+                      'pf_mark_ahead', 'pf_sub_ahead', 'pf_sub_ahead', 'pf_mark_int', 'pf_mark_int', 'pf_txn_int', 'pf_txn_int',
+                      'pf_txn_badprice', 'pf_txn_badprice']
         k = rng.choice(kinds)
         amt = rand_amount(rng) + 0.01
         over = lambda x: float(max(x, 0.0)) * rng.choice([1.0, 1.0, 1.0000001, 1.5, 10.0]) + rng.choice([0.001, 0.004, 0.0098, 0.01, 1.0, 1e6])  # noqa
@@ -1976,6 +1987,26 @@ class Gen(object):
             return ['pf_wd', pid, nowish, over(b.get_portfolio_cash_balance(pid))]
         if k == 'pf_txn_back':
             return ['pf_txn', pid, earlier, rng.choice(sc.cfg['assets']), self.qty(), rand_price(rng), 0.0]
+        if k == 'pf_mark_int':
+            # a VALID direct mark whose price is a whole number given as an int
+            if not held:
+                return None
+            return ['pf_mark', pid, rng.choice(held), rng.randint(1, 900), nowish]
+        if k == 'pf_txn_int':
+            # a VALID hand-made transaction whose commission (and sometimes price) is a whole number given as an int
+            a = rng.choice(held) if held and rng.random() < 0.6 else rng.choice(sc.cfg['assets'])
+            pos_ = b.portfolios[pid].pos_handler.positions.get(a)
+            t_ = nowish if pos_ is None else str(max(ts(nowish), pos_.current_dt))
+            price = rng.randint(1, 900) if rng.random() < 0.4 else rand_price(rng)
+            return ['pf_txn', pid, t_, a, self.qty(pid, a), price, rng.choice([1, 2, 5, 12, 40])]
+        if k == 'pf_txn_badprice':
+            # a fill without a positive price in a HELD asset is refused by its position; often it would have closed it
+            if not held:
+                return None
+            a = rng.choice(held)
+            pos_ = b.portfolios[pid].pos_handler.positions[a]
+            q_ = -mp.pos[a].net if rng.random() < 0.6 else self.qty(pid, a)
+            return ['pf_txn', pid, str(max(ts(nowish), pos_.current_dt)), a, q_, rng.choice([0.0, -1.5, 0, -rand_price(rng)]), 0.0]
         if k == 'pf_mark_neg':
             if not held:
                 return None
@@ -2000,7 +2031,8 @@ class Gen(object):
             between = str(clock + (pclock - clock) * rng.choice([0.0, 0.5, 0.999]))
             if k == 'pf_mark_behind_pos':
                 return ['pf_mark', pid, a, rand_price(rng), between]
-            return ['pf_txn', pid, between, a, self.qty(pid, a), rand_price(rng), 0.0]
+            q_ = -mp.pos[a].net if rng.random() < 0.5 else self.qty(pid, a)       # often the fill would have closed it
+            return ['pf_txn', pid, between, a, q_, rand_price(rng), 0.0]
         return None
 
 
